@@ -1,0 +1,66 @@
+//go:build verif
+
+package keyproof
+
+// Verification hook for property C20 (build tag "verif"); add-only, compiled out without the tag.
+
+import (
+	"github.com/privacybydesign/gabi/big"
+	"github.com/privacybydesign/gabi/zkproof"
+)
+
+// VerifC20ExpProofFlow drives the unexported exponentiation proof (and with it both worker
+// pools of exp.go) exactly like TestExpProofFlow: commit to a^b = r (mod n) in the group of the
+// given safe prime, build the proof for the challenge and recompute the commitments from it.
+// It returns whether the premise held, whether the proof structure verified, whether both
+// commitment lists agree, and the length of the list.
+func VerifC20ExpProofFlow(groupPrime *big.Int, a, b, n, r *big.Int, bitlen uint, challenge *big.Int) (premise, structure, same bool, length int) {
+	g, gok := zkproof.BuildGroup(groupPrime)
+	if !gok {
+		return false, false, false, 0
+	}
+	aPedersens := newPedersenStructure("a")
+	bPedersens := newPedersenStructure("b")
+	nPedersens := newPedersenStructure("n")
+	rPedersens := newPedersenStructure("r")
+
+	_, aPedersen := aPedersens.commitmentsFromSecrets(g, nil, a)
+	_, bPedersen := bPedersens.commitmentsFromSecrets(g, nil, b)
+	_, nPedersen := nPedersens.commitmentsFromSecrets(g, nil, n)
+	_, rPedersen := rPedersens.commitmentsFromSecrets(g, nil, r)
+
+	bases := zkproof.NewBaseMerge(&g, &aPedersen, &bPedersen, &nPedersen, &rPedersen)
+	secrets := zkproof.NewSecretMerge(&aPedersen, &bPedersen, &nPedersen, &rPedersen)
+
+	s := newExpProofStructure("a", "b", "n", "r", bitlen)
+	premise = s.isTrue(&secrets)
+
+	listSecrets, commit := s.commitmentsFromSecrets(g, []*big.Int{}, &bases, &secrets)
+	proof := s.buildProof(g, challenge, commit, &secrets)
+	structure = s.verifyProofStructure(challenge, proof)
+
+	aProof := aPedersens.buildProof(g, challenge, aPedersen)
+	aProof.setName("a")
+	bProof := bPedersens.buildProof(g, challenge, bPedersen)
+	bProof.setName("b")
+	nProof := nPedersens.buildProof(g, challenge, nPedersen)
+	nProof.setName("n")
+	rProof := rPedersens.buildProof(g, challenge, rPedersen)
+	rProof.setName("r")
+
+	proofBases := zkproof.NewBaseMerge(&g, &aProof, &bProof, &nProof, &rProof)
+	proofs := zkproof.NewProofMerge(&aProof, &bProof, &nProof, &rProof)
+
+	listProof := s.commitmentsFromProof(g, []*big.Int{}, challenge, &proofBases, &proofs, proof)
+	length = len(listSecrets)
+	same = len(listSecrets) == len(listProof) && len(listSecrets) == s.numCommitments()
+	if same {
+		for i := range listSecrets {
+			if listSecrets[i] == nil || listProof[i] == nil || listSecrets[i].Cmp(listProof[i]) != 0 {
+				same = false
+				break
+			}
+		}
+	}
+	return
+}
